@@ -105,6 +105,10 @@ def run_spec(pid, spec):
             w.fired("dot-in-working-directory-path")
         if proc.OPTIMIZE:
             w.fired("python-OO")
+        w.fs.mounts = tuple((spec.get("cfg") or {}).get("mounts") or ())
+        if w.fs.mounts:
+            w.fired("folders-on-file-systems-of-their-own")
+        w.sched_base = int((spec.get("cfg") or {}).get("sched_seed") or 0)
         spare = (spec.get("cfg") or {}).get("fd_spare")
         if spare:
             w.limit_descriptors(spare)      # the simulated machine's open-file limit (marathon sessions)
@@ -161,6 +165,11 @@ def _worker_chunk(pid, base_seed, tier, indices, keep_specs):
                 seed = splitmix(base_seed, pid, idx)
                 spec = prop.gen(random.Random(seed), tier, c)
                 _vary_syscall_faults(spec, seed)
+                spec.setdefault("cfg", {})
+                spec["cfg"] = dict(spec["cfg"], sched_seed=seed & 0xFFFFFFFF)
+                if (seed >> 21) % 12 == 0:
+                    # inputs/ and/or outputs/ are mounts of their own (a data disk, a container volume)
+                    spec["cfg"] = dict(spec["cfg"], mounts=[["inputs"], ["outputs"], ["inputs", "outputs"]][(seed >> 25) % 3])
                 if (seed >> 15) % 8 == 0:
                     # the working directory's path has a dot in it (john.doe, boards.v2)
                     spec.setdefault("cfg", {})
